@@ -65,9 +65,11 @@ func init() {
 		Rule:  "cases = curated corpus + seeded random descriptors; CopyFrom: per selected type B conforming base objects (fully known plan / masked plan); every fault position reachable through known parents is enumerated (attributes at every depth, list elements, map values; counter from-fault-positions) and every single fault at it is applied one at a time (delete, wrong Go type, nil interface, nil Attrs, nil Elems, wrong-typed / nil element; counter from-single-faults), then random sets of 2-6 non-nested faults (counter from-fault-sets); oracle: no panic, one error diagnostic per visited fault naming the model's field path, total count equal to the number of visited faults, every field outside the faulted attributes equal to the unfaulted decode. CopyTo: for a dense source value every attribute type of every object-type level the source reaches (top level, nested objects, list and map element types) is removed or replaced one at a time (counter to-type-faults); oracle: no panic, one missing-attribute diagnostic per visit naming the field, all other attributes identical to the unfaulted run; distinct = distinct (fault kind, field path) pairs",
 		Check: stdL2("C06", 10, 120)})
 	register(&Property{ID: "C19", Level: "exploration",
-		Rule: "cases = scalar / temporal / cast matrices of the curated corpus (k2, k3, k4, k1) + seeded random descriptors; for every scalar-like root field shape (singular, repeated element, map value, oneof branch, cast type; counter shapes) the full boundary set of its Go type (counter boundary-values: signed / unsigned 32 and 64 bit extremes, 2^53 neighbours, float32 / float64 subnormal, largest, rounding neighbours, +-0, +-Inf for double, empty / NUL / non-UTF-8 / 10 kB strings, all 256 byte values, enum numbers inside and outside the declared range, time instants with nanoseconds in +-14 h zones from year 1 to 9999, extreme durations) plus N full-range random values is placed into the field (two distinct values for lists and maps) and must survive CopyTo into an empty object followed by CopyFrom exactly (floats: bit equality up to the sign of zero); distinct = distinct (field, value) pairs",
+		Rule: "cases = scalar / temporal / cast matrices of the curated corpus (k2, k3, k4, k1, oneof cases k7, k11e, k13) + seeded random descriptors; for every scalar-like root field shape (singular, repeated element, map value, oneof branch, cast type; counter shapes) the full boundary set of its Go type (counter boundary-values: signed / unsigned 32 and 64 bit extremes, 2^53 neighbours, float32 / float64 subnormal, largest, rounding neighbours, +-0, +-Inf for double, empty / NUL / non-UTF-8 / 10 kB strings, all 256 byte values, enum numbers inside and outside the declared range, time instants with nanoseconds in +-14 h zones from year 1 to 9999, extreme durations) plus N full-range random values is placed into the field (two distinct values for lists and maps) and must survive CopyTo into an empty object followed by CopyFrom exactly (floats: bit equality up to the sign of zero); distinct = distinct (field, value) pairs",
 		Check: func(r *Run) {
-			cases := curatedCases("k1", "k2", "k3", "k4", "k6a", "k6b", "k7", "k8")
+			cases := curatedCases("k1", "k2", "k3", "k4", "k6a", "k6b", "k7", "k8", "k13")
+			// scalar oneof branches next to by-value duration branches (the last non-null branch wins on the way back)
+			cases = append(cases, caseFrom(descgen.CuratedByName("k11e")))
 			cases = append(cases, randomCases(r, r.pick(6, 30))...)
 			r.generate(cases)
 			r.compile(cases)
